@@ -13,15 +13,15 @@ import (
 // actions is unreachable with all guards failing, or is a call to a function
 // that is internally guarded itself.
 type Effects struct {
-	P        *Prog
-	IsSink   func(*ssa.Function) bool
+	P      *Prog
+	IsSink func(*ssa.Function) bool
 	// IsSinkInstr optionally selects non-call instructions (field stores,
 	// map updates) that are effects themselves.
 	IsSinkInstr func(ssa.Instruction) bool
-	InScope  func(*ssa.Function) bool
-	Guards   []*Guard
-	NonEmpty func(*ssa.Function) bool
-	MaxDepth int
+	InScope     func(*ssa.Function) bool
+	Guards      []*Guard
+	NonEmpty    func(*ssa.Function) bool
+	MaxDepth    int
 
 	writes  map[*ssa.Function]int // 0 unknown, 1 no, 2 yes, 3 in progress
 	guarded map[*ssa.Function]*EffVerdict
